@@ -312,6 +312,7 @@ def c08(ctx):
     rep = enum_replay(ctx, "nd", "C08")
     d = ctx.dir("ndlines")
     ctx.vh(["g-ndlines", "-seed", str(ctx.seed), "-maxlines", "3" if quick(ctx) else "4", "-property", "C08"])
+    ctx.vh(["v-ndbig", "-seed", str(ctx.seed), "-inputs", "40" if quick(ctx) else "400", "-property", "C08"], timeout=3000)
     record_and_validate_text(ctx, "C08", True, 300 if quick(ctx) else 4000, 200000 if quick(ctx) else 3000000)
     ctx.exhaustive = True
 
